@@ -28,6 +28,9 @@ def explore(res, rng, n):
         fs = rng.choice([16.0, 32.0, 50.0, 64.0])
         if i == 1:
             T, fs = 80.0, 128.0          # a long record (10240 samples)
+        decimal = (i % 4 == 3)
+        if decimal:
+            T, fs = 10.0, rng.choice([20.0, 50.0])     # a decimal frequency grid: 0.1 Hz spacing, bandwidths 0.2, 0.3, 0.6, 0.7 (3 * 0.1 != 0.3 in binary64)
         nn = round(fs * T)
         df = 1.0 / T * rng.choice([1, 1, 2])
         m0 = rng.choice([1, 2, 3])
@@ -39,6 +42,10 @@ def explore(res, rng, n):
             continue
         psd = [rng.choice([0.0, 0.5, 1.0, 2.0, 3.5]) for _ in freq]
         thin = rng.choice([None, None, df, 2 * df, 3 * df, 0.8 * df, 0.5 * df, 0.3 * df])      # incl. bandwidths below the grid spacing
+        if decimal:
+            freq = [round(f, 10) for f in freq]                       # the decimal literals 0.1, 0.2, ... as a user writes them
+            thin = round(rng.choice([2, 3, 3, 6, 7]) * df, 10) if rng.random() < 0.8 else thin
+            res.stat('decimal_frequency_grid')
         rvals = [rng.uniform(-2, 2) for _ in freq]
         case = {'fs': fs, 'time': T, 'freq': freq, 'psd': psd, 'freqBandwidth': thin, 'randn': rvals}
         with mock.patch.object(np.random, 'randn', side_effect=lambda k: np.array(rvals[:k])):
@@ -58,13 +65,13 @@ def explore(res, rng, n):
             fail(res, 'series exceeds the sum of its component amplitudes', case, [float(np.max(np.abs(amps))), bound])
         area = sum(psd[k] * bw for k in used)
         ms = float(np.mean(np.square(amps)))
-        if abs(ms - area) > 1e-9 * (1 + area):
+        if abs(ms - area) > (1e-9 if not decimal else 1e-7) * (1 + area):
             fail(res, 'mean square differs from the spectral area (whole periods below Nyquist)', case, [ms, area])
         fper, pper = lsm.periodogramSpectrum(amps, fs)
         for k in used:
             b = round(freq[k] * T)
             want = psd[k] * bw * T          # = psd when the bandwidth is the periodogram resolution fs/n = 1/T
-            if abs(fper[b] - freq[k]) > 1e-9 or abs(pper[b] - want) > 1e-8 * (1 + want):
+            if abs(fper[b] - freq[k]) > 1e-9 or abs(pper[b] - want) > (1e-8 if not decimal else 1e-6) * (1 + want):
                 fail(res, 'periodogram of the synthesised series does not return the input spectrum at its frequencies', case,
                      {'f': freq[k], 'periodogram': float(pper[b]), 'expected': want})
         # model correspondence (Float instance of the generic synthesiser)
@@ -93,6 +100,13 @@ def explore(res, rng, n):
         # ---- estimation on an arbitrary series
         L = rng.choice([8, 9, 16, 31, 64]) if i % 6 else rng.choice([4099, 5003, 8198])      # long records with a large prime factor
         x = np.array([rng.gauss(0, 1) + rng.choice([0.0, 3.0]) for _ in range(L)])
+        shape = i % 5
+        if shape == 1:
+            x = 101325.0 + 0.4 * x            # a small fluctuation on a large mean (a pressure record in Pa)
+            res.stat('series_small_ripple_on_large_offset')
+        elif shape == 3:
+            x = x * rng.choice([2.0 ** -30, 1e-9, 2.0 ** -200])       # small magnitudes (strains, SI units)
+            res.stat('series_small_magnitude')
         fs2 = rng.choice([1.0, 10.0, 128.0])
         f1, p1 = lsm.periodogramSpectrum(x.tolist(), fs2)
         if i % 5 == 2:
@@ -114,16 +128,18 @@ def explore(res, rng, n):
         if np.any(p1 < 0) or not np.allclose(f1, np.arange(len(f1)) * fs2 / L, rtol=1e-12, atol=1e-12):
             fail(res, 'periodogram is not a non-negative density on the grid k fs/n', case2, None)
         areap = float(np.sum(p1) * fs2 / L)
-        if abs(areap - float(np.var(x))) > 1e-9 * (1 + float(np.var(x))):
+        if abs(areap - float(np.var(x))) > (1e-9 if shape not in (1, 3) else 1e-6) * ((1 if shape != 3 else 0) + float(np.var(x))):
             fail(res, 'periodogram area differs from the variance of the series', case2, [areap, float(np.var(x))])
         _, p3 = lsm.periodogramSpectrum((3 * x).tolist(), fs2)
         _, pw3 = lsm.welchSpectrum((3 * x).tolist(), fs2, nperseg=min(8, L))
-        if not np.allclose(p3, 9 * p1, rtol=1e-9, atol=1e-12) or not np.allclose(pw3, 9 * pw, rtol=1e-9, atol=1e-12):
+        tiny = float(np.max(p1)) * 1e-9 if shape in (1, 3) else 1e-12
+        if not np.allclose(p3, 9 * p1, rtol=1e-6 if shape == 1 else 1e-9, atol=tiny) or not np.allclose(pw3, 9 * pw, rtol=1e-6 if shape == 1 else 1e-9, atol=tiny):
             fail(res, 'estimates do not scale with the square of the amplitude', case2, None)
         f4, p4 = lsm.periodogramSpectrum(x.tolist(), 7 * fs2)
         fw4, pw4 = lsm.welchSpectrum(x.tolist(), 7 * fs2, nperseg=min(8, L))
-        if abs(float(np.sum(p4) * 7 * fs2 / L) - areap) > 1e-9 * (1 + areap) or \
-                abs(float(np.sum(pw4) * (fw4[1] - fw4[0])) - float(np.sum(pw) * (fw[1] - fw[0]))) > 1e-9 * (1 + areap):
+        one = 0.0 if shape == 3 else 1.0
+        if abs(float(np.sum(p4) * 7 * fs2 / L) - areap) > 1e-9 * (one + areap) or \
+                abs(float(np.sum(pw4) * (fw4[1] - fw4[0])) - float(np.sum(pw) * (fw[1] - fw[0]))) > 1e-9 * (one + areap + float(np.sum(pw) * (fw[1] - fw[0]))):
             fail(res, 'area changes when only the sampling rate changes', case2, None)
     for (case, amps), a in zip(meta, core.driver_batch(reqs)):
         res.traces += 1
